@@ -9,11 +9,11 @@ ID = 'C09'
 LEVEL = 'model_checking'
 RULE = ('every program t(..) :- [Gv = Goal,] Builtin for Builtin in {call(G), call(G\',Extra..) for every split of '
         'the goal\'s arguments into carried and extra arguments, once(G), \\+ call(G), findall(T,G,L) for 6 templates, '
-        'each optionally followed by a continuation goal} x goal in {atoms and compound goals with 0/1/2 solutions '
+        'each optionally followed by a continuation goal or used twice in a row on the same goal term} x goal in {atoms and compound goals with 0/1/2 solutions '
         'over compiled facts, a rule, dynamic facts, an undefined predicate} x goal written inline or arriving in a '
         'variable bound at run time [thorough: x one level of nesting of the builtins inside each other], each '
         'queried with unbound and bound arguments and compared answer by answer with RefProlog; plus X = Y and '
-        'X \\= Y as goals for every pair of printable terms of depth <=1 over 2 variables. Unbound variables inside a '
+        'X \\= Y as goals for every pair of printable terms of depth <=1 over 2 variables. Through the Python API the SAME goal term objects are passed to call/N, once/1 and findall/3 three times in a row. Unbound variables inside a '
         'findall bag are observed anonymously (whether they are shared is not fixed by the property). states = '
         'distinct per-program outcomes; transitions = next() calls; non-trivial = some query has an answer')
 ASSUMPTIONS = ['RefProlog implements the standard definitions (findall copies instances, once = first solution, '
@@ -87,13 +87,17 @@ def programs(nesting):
                 for cont in ((None, 'w') if usesL else (None, 'm', 'eq')):
                     yield idx, goal, tag, g2, mk, usesL, via_var, cont
                     idx += 1
+                # the same goal term used by the builtin twice in a row (a meta-call must not
+                # consume or alter the goal it is given)
+                yield idx, goal, tag, g2, mk, usesL, via_var, 'twice'
+                idx += 1
 
 
 def make_case(goal, tag, g2, mk, usesL, via_var, cont):
     if via_var:
-        body = conj(call(F('=', G, g2)), mk(G))
+        body = conj(call(F('=', G, g2)), mk(G), mk(G)) if cont == 'twice' else conj(call(F('=', G, g2)), mk(G))
     else:
-        body = mk(g2)
+        body = conj(mk(g2), mk(g2)) if cont == 'twice' else mk(g2)
     if cont == 'm':
         body = conj(body, call(F('m', X)))
     elif cont == 'eq':
@@ -140,12 +144,67 @@ def eq_case(op, t1, t2):
     return Case([(SUPPORT, True, True), ([clause], True, False)], [], queries, repeat=1), clause
 
 
+# ---- the same goal TERM OBJECT passed to a builtin several times through the Python API
+def api_cases():
+    idx = 0
+    for goal in GOALS + [F('r', C(2), A('b')), F('m', C(1)), F('w', C(1), Y)]:
+        for g2, extra in splits(goal):
+            yield idx, 'call', goal, g2, extra
+            idx += 1
+        yield idx, 'once', goal, goal, ()
+        idx += 1
+        yield idx, 'findall', goal, goal, ()
+        idx += 1
+
+
+def run_api_case(kind, goal, g2, extra):
+    from .. import impl
+    from ..refprolog import Ref, canon
+    from ..diff import compile_cached, anonymize
+    from ..terms import show_program, term_vars
+    yp = impl.new_engine(compile_cached(show_program(SUPPORT)))
+    ref = Ref()
+    ref.consult(SUPPORT)
+    for t, ap in FACTS:
+        yp.assert_fact(yp.atom(t[1]), [impl.to_engine(yp, x, {}) for x in t[2]])
+        ref.assert_fact(t)
+    vm = {}
+    gterm = impl.to_engine(yp, g2, vm)
+    extras = [impl.to_engine(yp, x, vm) for x in extra]
+    if kind == 'findall':
+        tmpl = impl.to_engine(yp, F('f', X, Y), vm)
+        bag = impl.to_engine(yp, Lv, vm)
+        name, args, rgoal = 'findall', [tmpl, gterm, bag], F('findall', F('f', X, Y), g2, Lv)
+    elif kind == 'once':
+        name, args, rgoal = 'once', [gterm], F('once', g2)
+    else:
+        name, args, rgoal = 'call', [gterm] + extras, F('call', g2, *extra)
+    obsv = [('v', k) for k in term_vars(rgoal)]
+    obs = [impl.to_engine(yp, v, vm) for v in obsv]
+    exp, st = ref.query(rgoal, obsv)
+    anon_ix = [i for i, v in enumerate(obsv) if v == Lv]
+    exp = [anonymize(a, anon_ix) for a in exp]
+    for rnd in range(3):
+        got = []
+        try:
+            for _ in yp.query(name, args):
+                got.append(anonymize(impl.observe(obs), anon_ix))
+                if len(got) > len(exp) + 1:
+                    break
+        except Exception as e:  # noqa: BLE001
+            return ('violation', 'api-reuse:raises:' + impl.exc_sig(e), 'query(%r, ...) with the goal term %s, use %d of the same term objects, raised %r' % (name, show_term(g2), rnd + 1, e))
+        if got != exp:
+            return ('violation', 'api-reuse:answers-differ',
+                    'yp.query(%r, [...]) on the goal term %s built once through the API: use %d of the SAME term objects gives %r, expected %r' % (name, show_term(rgoal), rnd + 1, got, exp))
+    return ('ok', tuple(exp))
+
+
 NSH = 32
 
 
 def plan(tier):
     nesting = 0 if tier == 'quick' else 1
-    return [('b', k, NSH, nesting) for k in range(NSH)] + [('e', k, NSH) for k in range(NSH)]
+    return [('b', k, NSH, nesting) for k in range(NSH)] + [('e', k, NSH) for k in range(NSH)] + [('a', k, 4) for k in range(4)]
 
 
 def run_shard(spec):
@@ -162,6 +221,26 @@ def run_shard(spec):
             account(acc, ('b', idx), case, res, key=show_clause(clause))
             if res['status'] == 'ok' and res['nontrivial'] and idx % 211 == 0:
                 acc.sample({'clause': show_clause(clause), 'queries_compared': res['queries']}, limit=1)
+    elif spec[0] == 'a':
+        _, k, n = spec
+        from ..refprolog import Cyclic, Unspecified
+        for idx, kind, goal, g2, extra in api_cases():
+            if idx % n != k:
+                continue
+            acc.n['evaluations'] += 1
+            try:
+                r = run_api_case(kind, goal, g2, extra)
+            except (Cyclic, Unspecified):
+                acc.skipped['unspecified'] += 1
+                continue
+            acc.n['validated'] += 1
+            if r[0] == 'violation':
+                acc.violation(r[1], ('a', idx), {'api': [kind, list(_jj(goal)), list(_jj(g2)), [list(_jj(x)) for x in extra]]}, r[2], key='%s|%s|%s' % (kind, show_term(g2), len(extra)))
+                continue
+            acc.n['transitions'] += 3 * (len(r[1]) + 1)
+            if r[1]:
+                acc.n['nontrivial'] += 1
+            acc.outcome(('api', kind, r[1]))
     else:
         _, k, n = spec
         for idx, op, t1, t2 in eq_programs():
@@ -177,7 +256,17 @@ def run_shard(spec):
     return acc
 
 
+def _jj(t):
+    from ..diff import _j
+    return [_j(t)]
+
+
 def replay(case_json):
+    if 'api' in case_json:
+        from ..diff import _t
+        kind, goal, g2, extra = case_json['api']
+        r = run_api_case(kind, _t(goal[0]), _t(g2[0]), tuple(_t(x[0]) for x in extra))
+        return [(r[1], r[2])] if r[0] == 'violation' else []
     case = Case.from_json(case_json)
     res = case.run()
     if res['status'] == 'violation':
